@@ -337,6 +337,28 @@ func (s *Server) AddrProcConfig() (c *client.DefaultAddrProcConfig) {
 	}
 }
 
+// dnssecEnabled returns true if the AD bit should be set in the requests.  The
+// setting can be changed through the HTTP API while requests are being
+// processed, so it's only read under the lock.  s.serverLock must not be
+// locked.
+func (s *Server) dnssecEnabled() (ok bool) {
+	s.serverLock.RLock()
+	defer s.serverLock.RUnlock()
+
+	return s.conf.EnableDNSSEC
+}
+
+// aaaaDisabled returns true if the resolving of IPv6 addresses is disabled.
+// The setting can be changed through the HTTP API while requests are being
+// processed, so it's only read under the lock.  s.serverLock must not be
+// locked.
+func (s *Server) aaaaDisabled() (ok bool) {
+	s.serverLock.RLock()
+	defer s.serverLock.RUnlock()
+
+	return s.conf.AAAADisabled
+}
+
 // UpstreamTimeout returns the current upstream timeout configuration.
 func (s *Server) UpstreamTimeout() (t time.Duration) {
 	s.serverLock.RLock()
